@@ -3,7 +3,7 @@ import copy
 import os
 import vlib
 
-C12_OPS = {"add", "add_assign", "xor", "xor_assign", "and", "or", "andnot", "not", "bswap",
+C12_OPS = {"add", "add_assign", "xor", "xor_assign", "and", "or", "andnot", "not", "bswap", "and_assign", "or_assign", "eq",
            "rotr7", "rotr8", "rotr11", "rotr12", "rotr16", "rotr20", "rotr24", "rotr25", "rotr32",
            "shuffle1230", "shuffle2301", "shuffle3012", "lane1230", "lane2301", "lane3012",
            "swap1", "swap2", "swap4", "swap8", "swap16", "swap32", "swap64"}
